@@ -681,6 +681,26 @@ func ParseFile(path string, pkgPath string) (*File, error) {
 					cur.DynCalls = map[string]string{}
 				}
 				cur.DynCalls[parts[0]] = parts[1]
+			case "shape":
+				// shape [tag] F calls G, H : the body of F still contains static calls to G and H (what a trusted summary of F relies on)
+				r := strings.TrimSpace(rest)
+				c := &Census{Pos: ln.pos, Text: r}
+				if strings.HasPrefix(r, "[") {
+					if i := strings.Index(r, "]"); i > 0 {
+						c.Tag = r[1:i]
+						r = strings.TrimSpace(r[i+1:])
+					}
+				}
+				i := strings.Index(r, " calls ")
+				if i < 0 {
+					return nil, fail(fmt.Errorf("shape [tag] F calls G, H"))
+				}
+				c.Shape = strings.TrimSpace(r[:i])
+				for _, f := range strings.Split(r[i+7:], ",") {
+					c.Writers = append(c.Writers, strings.TrimSpace(f))
+				}
+				cur.Census = append(cur.Census, c)
+				curCS = nil
 			case "census":
 				r := strings.TrimSpace(rest)
 				c := &Census{Pos: ln.pos, Text: r}
@@ -878,7 +898,7 @@ var keywords = map[string]bool{
 	"spec": true, "macro": true, "footprint": true, "private": true, "ghost": true, "axiom": true, "lemma": true, "event": true, "func": true,
 	"requires": true, "ensures": true, "modifies": true, "pure": true, "noeffect": true, "trusted": true,
 	"let": true, "loop": true, "callsite": true, "assert": true, "assume": true, "cutafter": true, "invariant": true, "typeinv": true, "import": true, "package": true,
-	"noinline": true, "inline": true, "props": true, "fresh": true, "opt": true, "stablegetters": true, "represents": true, "dyncall": true, "silent": true, "assumes": true, "reenter": true, "monitor": true, "census": true,
+	"noinline": true, "inline": true, "props": true, "fresh": true, "opt": true, "stablegetters": true, "represents": true, "dyncall": true, "silent": true, "assumes": true, "reenter": true, "monitor": true, "census": true, "shape": true,
 }
 
 func firstWord(s string) string {
